@@ -250,6 +250,11 @@ func worldOpts(t cs.Src) cs.WorldOpts {
 		p.Consensus.ProtocolVersion = fsm.NewProtocolVersion(0, 2)
 	}
 	o.Params = p
+	o.Weights = map[cs.OpKind]int{}
+	for k, v := range cs.DefaultStakingWeights {
+		o.Weights[k] = v
+	}
+	o.Weights[cs.OpCertResults] = 2 // certificate results of committee 2 (slashes by another committee, Retired)
 	return o
 }
 
@@ -381,7 +386,7 @@ func markerOutlivedChange(a, b *cs.FullState) bool {
 }
 
 func classify(c *ev.Case, w *cs.World, lookAheads, laBlocks int, nontrivial bool) {
-	for _, k := range []string{"stake", "edit-stake", "pause", "unpause", "unstake", "change-param"} {
+	for _, k := range []string{"stake", "edit-stake", "pause", "unpause", "unstake", "change-param", "certificate-results"} {
 		c.ClassIf(w.Stats[k+".ok"] > 0, "tx:"+k+" ok")
 		c.ClassIf(w.Stats[k+".fail"] > 0, "tx:"+k+" failed (meant valid)")
 		c.ClassIf(w.Stats[k+".rejected-on-purpose"] > 0, "tx:"+k+" rejected (meant invalid)")
@@ -392,6 +397,9 @@ func classify(c *ev.Case, w *cs.World, lookAheads, laBlocks int, nontrivial bool
 		c.ClassIf(n > 0, "event:"+string(e))
 		c.ClassIf(n >= 3, "event:"+string(e)+" x3+")
 	}
+	hist := w.HistoryString()
+	c.ClassIf(strings.Contains(hist, " retired "), "cert:own certificate stamped Retired (consensus param retired != 0)")
+	c.ClassIf(strings.Contains(hist, "RETIRED ok"), "committee 2 retired by its certificate results")
 	c.ClassIf(w.Stats["doublesign-entries"] > 0, "cert:double-signers")
 	c.ClassIf(w.Stats["doublesign-entries"] >= 3, "cert:double-signers x3+")
 	c.ClassIf(w.Stats["nonsigner-bits"] > 0, "cert:non-signers")
